@@ -406,6 +406,15 @@ def run(run):
     from vf.contracts.registry import run_property_specs
 
     run_property_specs(run, "C15")
+    from vf.contracts.caches import GetDivisions, GetMemUsages
+
+    for sp in (GetDivisions(), GetMemUsages()):
+        w = sp.other_writers()
+        o = {"name": f"{sp.file}::{sp.qualname}#frame:only-writer-of-{sp.cache_name}", "status": "discharged" if not w else "unsupported", "backends": ["ast-scan"], "seconds": 0.0, "instances": 1,
+             "detail": "" if not w else f"other functions store into {sp.cache_name}: {w} - the cache invariant assumed by the contract is no longer established by this function alone"}
+        run.obligations.append(o)
+        if w:
+            run.undecided.append(o["name"] + ": " + o["detail"])
     tmp = tempfile.mkdtemp(prefix="verif_c15_")
     try:
         pqdir = os.path.join(tmp, "pq")
